@@ -1253,6 +1253,27 @@ fn directed(t: &mut Trace, rng: &mut Rng) {
     s.remove_issuer(t, 0, 5);
     s.verify_op(t, 11);
 
+    // (3b'') a held claim re-issued by the same issuer for the same topic under ANOTHER signature scheme (key
+    // rotation): the stored record must be the new claim as a whole - with the old scheme kept next to the new
+    // signature the issuer rejects it and a fully certified identity stops verifying (seed C15-r11-1)
+    for (k_old, s_old, k_new, s_new) in [(1u32, ED25519, 3u32, SECP256R1), (3, SECP256R1, 5, SECP256K1), (5, SECP256K1, 1, ED25519), (1, ED25519, 1, ED25519_B)] {
+        t.seq(&format!("directed claim re-issued under another scheme {}->{}", s_old, s_new));
+        let mut s = Sim::new();
+        setup_basic(&mut s, t);
+        s.add_topic(t, 0, 1);
+        s.add_issuer(t, 0, 4, &[1]);
+        s.allow_key(t, 4, k_old, s_old, 0, 1);
+        s.allow_key(t, 4, k_new, s_new, 0, 1);
+        let old = s.good_claim_as(4, 8, 1, k_old, s_old, b"r1", rng);
+        s.add_claim(t, 8, &old);
+        s.verify_op(t, 11);
+        let new = s.good_claim_as(4, 8, 1, k_new, s_new, b"r2", rng);
+        s.add_claim(t, 8, &new); // replaces the record under the same claim id
+        s.verify_op(t, 11); // still certified
+        s.add_claim(t, 8, &old); // and back
+        s.verify_op(t, 11);
+    }
+
     // (3b') topic lists naming a topic twice (adjacent and apart) must be refused by add_trusted_issuer and
     // update_issuer_claim_topics: an issuer linked twice under a topic survives its own removal (seed C15-r11-2)
     for dup in [[1u32, 1, 1], [2, 1, 1], [1, 2, 1]] {
